@@ -48,7 +48,7 @@ def main(pid=PID, mode=MODE):
             rep.violation("batch-failed", f"semantic analysis of a batch failed: {res.get('fatal') or res.get('__status__')} {res.get('traceback', '')[-300:]}",
                           {"sources": [p[1] for p in b][:2]}, size=idx, ident="")
             continue
-        for (name, status, cmp), (_, text, feats, size) in zip(res["results"], b):
+        for (name, status, cmp), (_, text, feats, size, *_rest) in zip(res["results"], b):
             stats["programs"] += 1
             if status != "ok":
                 rep.feature_violation("harness:" + status.split(":")[0], set(feats), f"{status}; program:\n{text}", {"source": text}, size=size, text=text)
@@ -56,13 +56,21 @@ def main(pid=PID, mode=MODE):
             stats["judged_programs"] += 1
             if len(samples) < 3 and size == 3 and stats["programs"] % 333 == 0:
                 samples.append({"program": text, "definitions": [[c[0], c[1], c[2], c[3]] for c in cmp]})
-            for sid, var, tvals, ovals, unk, present in cmp:
+            for sid, var, tvals, ovals, unk, present, avals in cmp:
                 stats["definitions"] += 1
-                bad = judge(mode, tvals, set(ovals), unk, present)
+                # exactness is demanded against the flow-sensitive, path-merging, NON-relational collecting semantics (what the
+                # statement spells out: union over paths per variable, operand combinations for binary operations); the concrete
+                # path enumeration must be contained in it (cross-check of the reference itself)
+                ref = tvals if avals is None else avals
+                if avals is not None and not set(tvals) <= set(avals):
+                    rep.violation("harness-reference-disagrees", f"concrete values {tvals} not within the abstract reference {avals}; program:\n{text}",
+                                  {"source": text}, size=size, ident=text[:100])
+                    continue
+                bad = judge(mode, ref, set(ovals), unk, present)
                 if bad is None:
                     stats["agree"] += 1
                     continue
-                rep.feature_violation(bad, set(feats), f"definition of {var} at statement {sid}: exact values {tvals}, analysis has {ovals}"
+                rep.feature_violation(bad, set(feats), f"definition of {var} at statement {sid}: exact values {ref} (concrete over all paths {tvals}), analysis has {ovals}"
                                       f"{' + unknown' if unk else ''}; program:\n{text}", {"source": text, "stmt": sid, "var": var},
                                       size=size * 1000 + len(text), text=text)
     new, known = rep.finish()
@@ -86,11 +94,11 @@ def replay(path, pid=PID, mode=MODE):
     rec = json.load(open(path))
     text = rec["case"]["source"]
     name = text.split("def ")[1].split("(")[0]
-    for _, res in runner.fork_map(vc.run_batch, [[(name, text, [], 0)]]):
+    for _, res in runner.fork_map(vc.run_batch, [[(name, text, [], 0, None)]]):
         print(text)
         print(res)
         for n, status, cmp in res.get("results", []):
-            for sid, var, tvals, ovals, unk, present in cmp or []:
+            for sid, var, tvals, ovals, unk, present, avals in cmp or []:
                 if judge(mode, tvals, set(ovals), unk, present):
                     print(f"VIOLATION property={pid} replay={path}")
                     return 1
